@@ -16,7 +16,7 @@ INVS = "INVARIANT SelectionKeepsDtype\nINVARIANT TemporalExact\nINVARIANT IntSum
 TRACE_CFG = "SPECIFICATION TraceSpec\nCHECK_DEADLOCK FALSE\nCONSTANTS\n  RollViaFloat = FALSE\n  CountKeepsTemporal = FALSE\n  ForgetUnit = FALSE\n  NarrowSum = FALSE\nINVARIANT TraceInv\n"
 
 EMBS = ["f64", "f32", "i64", "i64big", "i32", "i32big", "i16", "i8", "u8", "u32", "u64", "bool",
-        "M8ns", "M8ns0", "M8s", "M8us", "M8ms", "m8ns", "m8s", "m8us"]
+        "M8ns", "M8ns0", "M8s", "M8us", "M8ms", "m8ns", "m8s", "m8us", "i8lo", "i16lo", "i32lo"]
 VCONTS = ["np", "series", "index", "frame1", "series_tz", "nullable", "arrowseries", "pa", "pachunk", "pl", "plframe"]
 KCONTS = ["np", "series", "index", "pl", "pa", "pachunk", "arrowseries"]
 FAM = {"min": "min", "max": "max", "first": "first", "last": "last", "sum": "sum", "count": "count", "mean": "mean", "size": "count",
@@ -81,7 +81,7 @@ def build(rng, tier):
                     red.append(c)
                 # -- cumulative
                 for op in (["cumsum", "cummin", "cummax"] if tier == "thorough" else [rng.pick(["cumsum", "cummin", "cummax"])]):
-                    if op == "cumsum" and e.kind == "M":
+                    if op == "cumsum" and (e.kind == "M" or emb.endswith("lo")):
                         continue
                     v = [x % 2 for x in vals] if emb == "bool" else vals
                     cum.append(dict(op=op, keys=keys, vals=v, emb=emb, level="api", kenc=kenc, kcont=kcont_a, vcont=vcont_arg(vcont, n), nanull=1))
